@@ -57,8 +57,10 @@ func suiteC14(s *Suite, rng *Rng, tier string) {
 		// which keys take part
 		part := map[string]*gabikeys.PublicKey{}
 		ids := map[string]int{}
+		// every fourth round only the 2048-bit key is in play (the server's randomizer is then longer than with a 1024-bit key)
+		only2048 := round%4 == 3
 		for i, k := range keys {
-			if rng.Intn(3) != 0 || i == 0 {
+			if (!only2048 && (rng.Intn(3) != 0 || i == 0)) || (only2048 && i == 1) {
 				part[kidOf[k.Pk]] = k.Pk
 			}
 			ids[kidOf[k.Pk]] = i
@@ -74,6 +76,9 @@ func suiteC14(s *Suite, rng *Rng, tier string) {
 		desc := ""
 		for i := 0; i < n; i++ {
 			kp := keys[rng.Intn(len(keys))]
+			if only2048 {
+				kp = keys[1]
+			}
 			participating := part[kidOf[kp.Pk]] != nil
 			var kp0 *gbig.Int
 			total := new(gbig.Int).Set(userSecret)
@@ -334,6 +339,53 @@ func suiteC14(s *Suite, rng *Rng, tier string) {
 			h2[7] ^= 0x10
 			call("committed-hash-altered", h2, cpReq(), true)
 			call("committed-hash-truncated", commReq.HashedUserCommitments[:31], cpReq(), true)
+		}
+		// ---- the user starts over with the same builders (as after a refusal): fresh randomizer, nonce and server commitments ----
+		{
+			rand2 := map[string]*gbig.Int{"secretkey": rng.Bits(592)}
+			nonce2 := rng.Bits(128)
+			for _, b := range builders {
+				b.SetProofPCommitment(nil) // the server's commitment of the abandoned exchange is forgotten
+			}
+			commReq2, hashInput2, err := gabi.KeyshareUserCommitmentRequest(builders, rand2, part)
+			if err != nil {
+				panic(err)
+			}
+			kssRandomizer2, kssComm2, err := gabi.NewKeyshareCommitments(kssSecret, pks)
+			if err != nil {
+				panic(err)
+			}
+			for i, b := range builders {
+				if part[kidOf[pks[i]]] != nil {
+					b.SetProofPCommitment(kssComm2[i])
+				}
+			}
+			respReq2, challenge2, err := gabi.KeyshareUserResponseRequest(builders, rand2, hashInput2, context, nonce2, issig)
+			if err != nil {
+				panic(err)
+			}
+			p2, err := gabi.KeyshareResponse(kssSecret, kssRandomizer2, gabi.KeyshareCommitmentRequest{HashedUserCommitments: commReq2.HashedUserCommitments}, respReq2, part)
+			if err != nil {
+				s.Violate("C14:honest-exchange-failed", "keyshare server refused the second honest exchange over the same builders", d)
+			} else {
+				if p2.C.Cmp(challenge2) != 0 {
+					s.Violate("C14:challenges-differ", "second exchange over the same builders: user and keyshare server compute different challenges", d)
+				}
+				pps := make([]*gabi.ProofP, len(builders))
+				for i := range builders {
+					if part[kidOf[pks[i]]] != nil {
+						pps[i] = p2
+					}
+				}
+				proofs2, err := builders.BuildDistributedProofList(challenge2, pps)
+				if err != nil {
+					panic(err)
+				}
+				_, acc2, amb2 := verifyCase(s, "joint-list-second-exchange:"+desc, false, pks, context, nonce2, issig, kss, cloneList(proofs2))
+				if !amb2 && !acc2 {
+					s.Violate("C14:joint-proof-rejected", "second exchange over the same builders: the proof list does not verify", d)
+				}
+			}
 		}
 	}
 	s.Notes["rule"] = "builder lists of length 1..4 (3 in quick) over three keys (1024/2048 bits), every key participating with probability 2/3, disclosure (with range / " +
